@@ -22,6 +22,13 @@ CONTRACTS = {
 def _init(paths):
     global _FACTS
     sys.setrecursionlimit(20000)
+    try:
+        # a runaway abstract state must end as SHAPE/unproven for that root, not take the machine down
+        import resource
+        lim = int(os.environ.get('VERIF_WORKER_MEM_GB', '6')) << 30
+        resource.setrlimit(resource.RLIMIT_AS, (lim, lim))
+    except Exception:
+        pass
     _FACTS = {c: Facts(p) for c, p in paths.items()}
 
 
